@@ -244,4 +244,20 @@ PROPS = {
                 "handler or a message shorter than 5 bytes); distinct = the whole case.",
         "assumptions": [],
     },
+    "C15": {
+        "pkg": "c15",
+        "stages": [{"run": "^TestPropTimeout", "quick": (8000, 4), "thorough": (100000, 16)},
+                   {"run": "^TestPropCancel$", "quick": (40, 3), "thorough": (300, 8), "timeout": {"quick": 900, "thorough": 3600}}],
+        "technique": "property-based testing (rapid) + enumeration: grpc-timeout strings from the grammar and malformed shapes against an independent decoder and a bracketing deadline oracle; cancellation/disconnect at handler-announced blocking points over real connections with a bounded-liveness oracle",
+        "level_text": "(a) Generated and enumerated grpc-timeout strings: for legal values the handler's ctx.Deadline() must lie in [t_before+T, t_after+T] (no tolerance constant), "
+                      "malformed values must be refused without running the handler. (b) Cancellation: grpc-go (h2c), plain HTTP/1.1 and gRPC-web over real connections are cancelled or "
+                      "disconnected while the handler has announced that it is blocked in Recv / Send / idle between messages; the blocked call must return an error and ctx.Done() must "
+                      "close within 10 s (a miss must repeat three times). Exploration only; (b) is a bounded-time observation of a liveness property.",
+        "level_note": "Sign-prefixed timeouts are excluded (unspecified). (b) reads a wall clock with a 10 s bound (typical release < 10 ms) and samples schedules chosen by the Go runtime.",
+        "rule": "TestPropTimeout: legal strings (1-8 digits boundary-biased or random x 6 units, leading zeros, overflowing hours) and ~30 malformed shapes; TestPropTimeoutEnum: all (length, unit) pairs "
+                "x 8 boundary digit strings. TestPropCancel: transport x cancel point (before first message, while blocked in Recv after k exchanges, while blocked in Send against a non-reading "
+                "client with 256 KiB messages, idle between messages) x mechanism (context cancel for grpc-go, connection close for HTTP/1.1). Non-trivial = distinct (shape, validity[, value]) "
+                "for timeouts; for cancellation a case in which the handler verifiably announced the blocking point before the cancel was issued.",
+        "assumptions": ["'promptly' is observed as 'within 10 s'"],
+    },
 }
